@@ -10,7 +10,7 @@ def run(ctx, drv):
     ctx.nontrivial_rule = ("real runs of all 16 algorithm configurations x applicable variable types, sizes 4-12, budgets "
                            "{0,1,s-1,s,s+1,2s,2s+1,3s-1} relative to the population/swarm size s, 1-3 consecutive run() calls, default "
                            "and explicit operators, map and pickling evaluators. one case = one run() call; non-trivial = budget > 0 "
-                           "and >= 2 steps; distinct by (algorithm, problem, seed, budgets)")
+                           "and >= 2 steps; distinct by (algorithm, problem, seed, budgets) + budgets given as ints, fresh or re-used MaxEvaluations objects; runs seeded with already evaluated injected populations; converging single-objective runs of several thousand evaluations under a watchdog")
     reqs, post = [], []
 
     def ask(line, fn):
@@ -81,6 +81,53 @@ def run(ctx, drv):
                 else ctx.disagree("Algorithm.run loop over observed step increments (runOnIncs)", sinp, f"{len(incs)} {sum(incs)} 0", g))
             ctx.case((cfg["name"], cfg["seed"], tuple(budgets), j), N > 0 and len(nfes) >= 2,
                      dict(algorithm=cfg["name"], size=s, N=N, nfe_at_start=n0, nfe_after_each_step=nfes) if len(ctx.samples) < 4 and len(nfes) >= 2 else None)
+    # ---- long runs that converge (step size collapses on a smooth single-objective problem): every step must still count
+    # evaluations and the run must stop on its budget, generation 5 and generation 500 alike
+    import random as _random
+    import signal
+    import plat
+    from platypus import Problem, Real, algorithms as A
+    for name, mk, budget in (("CMAES", lambda p: A.CMAES(p, offspring_size=10), 4000), ("CMAES", lambda p: A.CMAES(p, offspring_size=6), 3000),
+                             ("GeneticAlgorithm", lambda p: A.GeneticAlgorithm(p, population_size=10, offspring_size=10), 3000),
+                             ("EvolutionaryStrategy", lambda p: A.EvolutionaryStrategy(p, population_size=6, offspring_size=6), 3000)):
+        p = Problem(2, 1, function=lambda x: [sum((v - 0.25) ** 2 for v in x)])
+        p.types[:] = Real(-1, 1)
+        _random.seed(rng.randrange(2 ** 31))
+        alg = mk(p)
+        nfes = []
+
+        def go():
+            def on_alarm(signum, frame):
+                raise TimeoutError("run exceeded the watchdog")
+            old = signal.signal(signal.SIGALRM, on_alarm)
+            signal.alarm(20)
+            try:
+                alg.run(budget, callback=lambda a: nfes.append(a.nfe))
+            finally:
+                signal.alarm(0)
+                signal.signal(signal.SIGALRM, old)
+        inp = {"algorithm": name, "problem": "sphere in 2 variables", "budget": budget}
+        try:
+            go()
+            err = None
+        except TimeoutError as e:
+            err = str(e)
+        except Exception as e:
+            err = f"{type(e).__name__}: {e}"
+        if err is not None and "watchdog" in err:
+            ctx.fail("run-does-not-terminate", dict(inp, nfe_when_stopped=alg.nfe, steps=len(nfes)), err, "run(N) returns", f"core.Algorithm.run ({name})")
+            continue
+        if err is not None:
+            ctx.notes.append(f"long run aborted: {name}: {err}")
+            continue
+        incs = [b - a for a, b in zip([0] + nfes, nfes)]
+        if any(i <= 0 for i in incs):
+            ctx.fail("counter-not-strictly-increasing", dict(inp, step=[i for i, v in enumerate(incs) if v <= 0][0]), incs[:5], "every step counts >= 1 evaluation",
+                     f"core.Algorithm.run ({name})")
+        elif alg.nfe < budget or (len(nfes) >= 2 and nfes[-2] >= budget):
+            ctx.fail("stops-before-budget" if alg.nfe < budget else "steps-after-budget-reached", inp, alg.nfe, f">= {budget}, first step reaching it is the last", f"core.Algorithm.run ({name})")
+        ctx.case(("long-converging", name, budget), True)
+    ctx.count("long_converging_runs", 4)
     if drv.ok:
         out = drv.batch(reqs)
         for g, fn in zip(out, post):
